@@ -919,8 +919,13 @@ pub fn is_core(s: &Script) -> bool {
     s.end == End::None || s.end_after == 2
 }
 
+/// per-run directory (the parent names it in VERIF_C20_STATS, its workers inherit the variable): two runs of this
+/// check at the same time do not share statistics
 pub fn stats_dir() -> std::path::PathBuf {
-    std::path::PathBuf::from(format!("{}/.work/C20-stats", vcheck::root()))
+    match std::env::var("VERIF_C20_STATS") {
+        Ok(d) => std::path::PathBuf::from(d),
+        Err(_) => std::path::PathBuf::from(format!("{}/.work/C20-stats", vcheck::root())),
+    }
 }
 
 impl Prop for C20 {
@@ -963,7 +968,7 @@ impl Prop for C20 {
     }
     fn case_timeout(&self, tier: Tier) -> u64 {
         match tier {
-            Tier::Quick => 120,
+            Tier::Quick => 300,
             Tier::Thorough => 3600,
         }
     }
